@@ -53,7 +53,9 @@ TA == <<T(FALSE, FALSE, FALSE, FALSE, FALSE, FALSE, FALSE, ""),   \* 1  PA   pla
         T(TRUE,  FALSE, FALSE, FALSE, TRUE,  FALSE, TRUE, ""),   \* 13 PO   RI, Mark() int
         T(TRUE,  FALSE, TRUE,  TRUE,  FALSE, FALSE, FALSE, "B"),   \* 14 PDM  RI Primary Mark()
         T(TRUE,  FALSE, FALSE, FALSE, FALSE, FALSE, FALSE, ""),   \* 15 PZ1  RI, a field-less (zero-size) struct: cannot carry a custom name
-        T(TRUE,  FALSE, FALSE, TRUE,  FALSE, FALSE, TRUE, "")>>  \* 16 PZ2  RI Mark(), field-less too (Go gives all zero-size objects one address)
+        T(TRUE,  FALSE, FALSE, TRUE,  FALSE, FALSE, TRUE, ""),   \* 16 PZ2  RI Mark(), field-less too (Go gives all zero-size objects one address)
+        T(TRUE,  FALSE, TRUE,  FALSE, FALSE, FALSE, FALSE, ""),  \* 17 PZP  RI Primary, field-less
+        T(TRUE,  TRUE,  FALSE, FALSE, FALSE, FALSE, FALSE, "")>> \* 18 PZQ  RI Q, field-less (its qualifier is the constant "g1")
 
 VARIABLES sc, inj, phase, status, res
 vars == <<sc, inj, phase, status, res>>
